@@ -15,7 +15,7 @@ from ..engines import syncsim as S
 
 ID = "C12"
 LEVEL = "exploration"
-ENGINE = "streamsim"
+ENGINE = "syncsim"
 RULE = ("one evaluation = one consumer (bnp.compute single/tuple/dict of genome.get_intervals/read_intervals/get_track/"
         "read_track(stream=True) pipelines, exhaustive for loop, writer.write, MultiStream attributes to exhaustion, "
         "forbes/jaccard, left_join) run on a generated genome of <= 4 contigs (prefix-related names, '_' names, "
